@@ -9,10 +9,10 @@ import (
 
 func init() {
 	register(&propCheck{
-		id:    "C19",
-		level: "other",
+		id:          "C19",
+		level:       "other",
 		explanation: "Static necessary conditions of 'paginators yield every item exactly once, in order; nothing after stop; constructor failures are reported': (E1) in package pagination no return that is reached only where a callee's error was found non-nil returns a nil error (the shadowed-result defect); (E2) AbstractPaginator.HasNext/GetNext test the paginator's context before anything else and the stream paginator only answers through them; (E3) HasNext answers true only where the current page iterator says so or through its own recursion after a successful page fetch; (E8) after a page fetch returns, the context is consulted again before HasNext can answer true (a stop landing during the fetch yields nothing more); (E4) GetNext hands out the current iterator's item and only after HasNext advanced the cursor; (E5) whoever replaces the current page replaces the iterator from that same page; (E6) the context consulted by the gate is the one cancelled by Stop/Close; (E7) the stream paginator gives up only when told the stream is drying up and the grace period test has been made. Decided on SSA; nothing is executed. Not decided: the item sequence itself for arbitrary page partitions (behavioural), liveness of the stream loop.",
-		run:   runC19,
+		run:         runC19,
 		assumptions: []string{
 			"page and iterator implementations supplied by the caller honour IStaticPage / IIterator",
 		},
